@@ -1,0 +1,19 @@
+//go:build verif
+
+package tree
+
+import "github.com/pinealctx/neptune/ds/tree/btree"
+
+// VerifCheck runs the structural invariant walk of the wrapped tree under the wrapper's
+// read lock (build tag "verif").
+func (b *BTree) VerifCheck() error {
+	b.rw.RLock()
+	defer b.rw.RUnlock()
+	return b.t.VerifCheck()
+}
+
+// VerifInner returns the wrapped tree (to be used only while no other goroutine uses
+// the wrapper).
+func (b *BTree) VerifInner() *btree.BTree {
+	return b.t
+}
